@@ -470,6 +470,8 @@ pub fn join(toks: &[Tok]) -> String {
 const EDIT_CHARS: &[char] = &[
     '$', '@', '.', '[', ']', '(', ')', '*', ',', ':', '?', '!', '<', '>', '=', '&', '|', '\'', '"', '\\', '0', '1', '9', '-', '+', 'e', 'E', 'a', 'u', 'n', '_', ' ', '\t', '\n',
     '\r', '\u{0}', '\u{a0}', '\u{e9}', '\u{1d11e}',
+    // look-alikes of ASCII digits, letters and punctuation (full-width forms, other scripts' digits)
+    '\u{ff14}', '\u{ff21}', '\u{ff41}', '\u{ff04}', '\u{ff3b}', '\u{ff0e}', '\u{663}', '\u{b2}', '\u{2028}', '\u{85}',
 ];
 
 pub fn mutate_chars(src: &mut Src, s: &str) -> String {
